@@ -829,6 +829,9 @@ func (e *Enc) applyContract(fc *FuncContract, key, site string, sig *types.Signa
 		e.used["assumed contract of an in-repo function whose body is outside the subset (not verified): "+fc.Key] = true
 	}
 	env := e.calleeEnv(fc, sig, sfn, c, args, argTypes, bindings)
+	if fc.Opts["locks"] != "caller" && fc.Opts["locks"] != "release" {
+		e.calleeLockObligations(sfn, args, in.Pos())
+	}
 	requires, ensures := fc.Requires, fc.Ensures
 	crossMode := (fc.Mode == "bv") != e.bv
 	if fc.Mode == "bv" && !e.bv {
@@ -1134,20 +1137,110 @@ func (e *Enc) refineEnv(lc *FuncContract, cur, old *State) *specEnv {
 	if e.fn.Pkg != nil {
 		env.pkg = e.fn.Pkg.Pkg
 	}
-	for i, p := range e.fn.Params {
-		if i >= len(lc.Params) {
+	lparams := lc.Params
+	if strings.HasPrefix(lc.Key, "functype ") {
+		// a function type: parameter names are those of the type's signature (overridden by a params clause)
+		if nt := e.W.lookupType(strings.TrimPrefix(lc.Key, "functype ")); nt != nil {
+			if fsig, ok := nt.Underlying().(*types.Signature); ok {
+				var names []string
+				for i := 0; i < fsig.Params().Len(); i++ {
+					n := fsig.Params().At(i).Name()
+					if n == "" || n == "_" {
+						n = fmt.Sprintf("arg%d", i)
+					}
+					names = append(names, n)
+				}
+				for i := range names {
+					if i < len(lc.Params) {
+						names[i] = lc.Params[i]
+					}
+				}
+				lparams = names
+			}
+		}
+	}
+	// free variables of a closure come first in fn.Params? No: ssa keeps them in FreeVars; Params are the declared ones.
+	isFT := strings.HasPrefix(lc.Key, "functype ")
+	off := 0
+	if isFT && e.fn.Signature.Recv() != nil {
+		// a method refining a function type (its bound-method value inhabits the type): the receiver is not a parameter
+		off = 1
+	}
+	for j, p := range e.fn.Params {
+		i := j - off
+		if i < 0 {
+			continue
+		}
+		if i >= len(lparams) {
 			break
 		}
 		t := p.Type()
 		sv := SV{T: e.vals[p].T, Sort: e.sortOf(t), GT: t}
-		if i == 0 && e.fn.Signature.Recv() != nil {
+		if !isFT && i == 0 && e.fn.Signature.Recv() != nil {
 			if _, isIface := t.Underlying().(*types.Interface); !isIface {
 				sv = SV{T: sx("mk-iface", tInt(int64(e.W.typeID(t))), e.vals[p].T), Sort: "Iface", GT: types.NewInterfaceType(nil, nil)}
 			}
 		}
-		env.vars[lc.Params[i]] = sv
+		env.vars[lparams[i]] = sv
 	}
 	return env
+}
+
+// refineFrames: behavioural subtyping, frame side. Every write of this function is checked against its own modifies
+// clause; here that clause is shown to lie within the modifies clause of each contract it refines (evaluated over
+// the entry state with the refined contract's parameter names bound positionally).
+func (e *Enc) refineFrames() {
+	if e.fc == nil {
+		return
+	}
+	for _, lc := range e.refinedSpecs() {
+		if !lc.HasModifies || !strings.HasPrefix(lc.Key, "functype ") {
+			// interface-method libspecs state their frames over capacities (dst[len(dst):cap(dst)]) while the
+			// methods state the range they write if capacity allows: containment needs the append rule, which
+			// the per-write frame obligations of the method apply; only function types are compared here
+			continue
+		}
+		saved := e.curReach
+		e.curReach = tTrue
+		if !e.fc.HasModifies {
+			e.oblige("refine", "refine:frame:"+lc.Key, tFalse, token.NoPos, "this function refines "+lc.Key+", which has a modifies clause, but has none itself")
+			e.curReach = saved
+			continue
+		}
+		renv := e.refineEnv(lc, e.init, e.init)
+		var ritems []frameItem
+		for _, cl := range lc.Modifies {
+			ritems = append(ritems, renv.lvalue(cl.Expr)...)
+		}
+		for i, m := range e.myModItems() {
+			var alts []Term
+			if m.Lo != "" {
+				alts = append(alts, tLe(m.Hi, m.Lo))
+			}
+			for _, r := range ritems {
+				if r.Heap != m.Heap {
+					continue
+				}
+				if r.Key == "" {
+					alts = append(alts, tTrue)
+					continue
+				}
+				if m.Key == "" {
+					continue
+				}
+				c := tEq(r.Key, m.Key)
+				if r.Lo != "" {
+					if m.Lo == "" {
+						continue
+					}
+					c = tAnd(c, tLe(r.Lo, m.Lo), tLe(m.Hi, r.Hi))
+				}
+				alts = append(alts, c)
+			}
+			e.oblige("refine", fmt.Sprintf("refine:frame:%s/%d", lc.Key, i), tImp(e.preCond, tOr(alts...)), token.NoPos, "modifies item "+m.Heap+" "+m.Src+" lies within the modifies clause of "+lc.Key)
+		}
+		e.curReach = saved
+	}
 }
 
 func (e *Enc) refinedSpecs() []*FuncContract {
@@ -1196,6 +1289,7 @@ func (e *Enc) entrySpecs() {
 		e.assumeG(t)
 	}
 	e.preCond = tAnd(pres...)
+	e.refineFrames()
 }
 
 // ---------- defer / go / select ----------
@@ -1395,8 +1489,48 @@ func (e *Enc) execSelect(in *ssa.Select) {
 	} else {
 		e.atVars["selblocking"] = SV{T: tFalse, Sort: "Bool"}
 	}
+	// selsendval / selrecvval: the value offered by the chosen send case / received by the chosen receive case
+	// (available when all send cases, resp. all receive cases, carry values of one sort)
+	{
+		var sendSort, recvSort string
+		var sendGT, recvGT types.Type
+		sendOK, recvOK := true, true
+		var sendV, recvV Term
+		ri := 2
+		for i, st := range in.States {
+			if st.Dir == types.RecvOnly {
+				et := st.Chan.Type().Underlying().(*types.Chan).Elem()
+				so := e.sortOf(et)
+				if recvSort == "" {
+					recvSort, recvGT, recvV = so, et, tup[ri].T
+				} else if recvSort != so {
+					recvOK = false
+				} else {
+					recvV = tIte(tEq(idx, tInt(int64(i))), tup[ri].T, recvV)
+				}
+				ri++
+			} else if st.Send != nil {
+				so := e.sortOf(st.Send.Type())
+				if sendSort == "" {
+					sendSort, sendGT, sendV = so, st.Send.Type(), e.val(st.Send).T
+				} else if sendSort != so {
+					sendOK = false
+				} else {
+					sendV = tIte(tEq(idx, tInt(int64(i))), e.val(st.Send).T, sendV)
+				}
+			}
+		}
+		if sendOK && sendSort != "" {
+			e.atVars["selsendval"] = SV{T: sendV, Sort: sendSort, GT: sendGT}
+		}
+		if recvOK && recvSort != "" {
+			e.atVars["selrecvval"] = SV{T: recvV, Sort: recvSort, GT: recvGT}
+		}
+	}
 	e.applyAts("select", "", in.Pos(), sargs, tup[:2])
 	e.atSelect = nil
+	delete(e.atVars, "selsendval")
+	delete(e.atVars, "selrecvval")
 	delete(e.atVars, "selchan")
 	delete(e.atVars, "selsend")
 	delete(e.atVars, "selcases")
